@@ -675,7 +675,10 @@ func (e *Exec) applyContract(st *State, fr *Frame, ci *callInfo, c *FuncContract
 	nt := e.freshConst("top.call", SInt)
 	st.assert(Ge(nt, st.allocTop))
 	st.allocTop = nt
-	if c.Attrs["time"] == "true" || c.Attrs["blocks"] == "true" {
+	if (c.Attrs["time"] == "true" || c.Attrs["blocks"] == "true") && c.Attrs["instant"] != "true" {
+		// (attr instant: other goroutines may interleave, but the callee does
+		// no timed wait: the ghost clock stands still. File I/O and lock
+		// acquisition are modelled this way, see DESIGN §2.8)
 		nn := e.freshConst("now.call", SInt)
 		st.assert(Ge(nn, st.now))
 		st.now = nn
@@ -695,9 +698,12 @@ func (e *Exec) applyContract(st *State, fr *Frame, ci *callInfo, c *FuncContract
 	}
 	if c.Attrs["returns_fresh"] == "true" && len(res) > 0 && len(res[0].L) == 1 {
 		// the callee hands back an object nobody else knows yet
+		// (but its fields were initialised by the callee: unlike an object
+		// allocated here it does not read as zero in older heap arrays)
 		st.fresh[res[0].L[0].S] = true
 		st.seq++
 		st.freshSeq[res[0].L[0].S] = st.seq
+		st.foreignFresh[res[0].L[0].S] = true
 	}
 	post := &SpecEnv{e: e, st: st, vars: env.vars, pkg: pkg, old: pre, oldTop: preTop, oldNow: preNow, trace: st.trace, what: "call " + c.Key}
 	e.bindResults(post, resultNames(c, sig), sig, res)
